@@ -232,6 +232,9 @@ func bfgs(f_ Objective, f ObjectiveInSitu, x0 Vector, H0 Matrix, epsilon Epsilon
   if t1.Vnorm(g1).GetFloat64() < epsilon.Value {
     return x1, nil
   }
+  if v := t1.GetFloat64(); math.IsNaN(v) || math.IsInf(v, 0) {
+    return x1, fmt.Errorf("invalid initial value: gradient is not finite")
+  }
   // execute hook if available
   if hook.Value != nil && hook.Value(x1, g1, y1) {
     return x1, nil
@@ -275,6 +278,11 @@ func bfgs(f_ Objective, f ObjectiveInSitu, x0 Vector, H0 Matrix, epsilon Epsilon
       // evaluate stop criterion
       if t1.Vnorm(g2).GetFloat64() < epsilon.Value {
         break
+      }
+      // no line search can succeed anymore (the loop would reset H and
+      // retry forever)
+      if v := t1.GetFloat64(); math.IsNaN(v) || math.IsInf(v, 0) {
+        return x1, fmt.Errorf("NaN value detected: gradient is not finite")
       }
       if first_update {
         // compute heuristic steplength y^T s / (y^T y)
